@@ -60,6 +60,17 @@ impl G<'_, '_> {
             }
         }
     }
+    /// `lp(v).1`: a logged call whose result is v (Int mostly, sometimes Bool / String / None)
+    fn typed_call(&mut self) -> Expr {
+        self.k += 1;
+        let v = match self.d.below(8) {
+            0 => Value::Bool(self.k % 2 == 0),
+            1 => Value::String(format!("s{}", self.k)),
+            2 => Value::None,
+            _ => Value::Int(self.k),
+        };
+        typed_call_of(v)
+    }
     fn leaf(&mut self) -> Expr {
         match self.d.below(10) {
             0 => Expr::value(true),
@@ -162,6 +173,15 @@ impl G<'_, '_> {
                 let b = self.fresh();
                 Expr::some(mk2(k, Expr::func("lp", a), Expr::func("lp", b)))
             }
+            15 if self.d.below(3) == 1 => {
+                // a chain of one strict operator over typed call results: a failing combination ends the evaluation
+                // before any later operand runs
+                let k = *self.d.pick(&BINARY_KINDS[..]);
+                let n = 3 + self.d.below(4);
+                let left_nested = self.d.below(4) != 3;
+                let ops: Vec<Expr> = (0..n).map(|_| self.typed_call()).collect();
+                Expr::some(chain(k, ops, left_nested))
+            }
             15 if self.d.below(3) == 0 => {
                 // an unregistered function: its argument is still evaluated (once), then the call fails
                 let a = self.bool_expr(depth - 1);
@@ -175,7 +195,63 @@ impl G<'_, '_> {
     }
 }
 
-fn random_case(bytes: &[u8]) -> EvalCase {
+fn typed_call_of(v: Value) -> Expr {
+    Expr::index(Expr::func("lp", Expr::Value(v)), Index::Vec(1))
+}
+
+fn chain(kind: &str, mut ops: Vec<Expr>, left_nested: bool) -> Expr {
+    if left_nested {
+        let mut it = ops.into_iter();
+        let mut e = it.next().unwrap();
+        for o in it {
+            e = mk2(kind, e, o);
+        }
+        e
+    } else {
+        let mut e = ops.pop().unwrap();
+        while let Some(o) = ops.pop() {
+            e = mk2(kind, o, e);
+        }
+        e
+    }
+}
+
+/// Chains of `depth` operands of every binary kind (left- and right-nested) and towers of every unary kind over a
+/// logged call: each operand runs exactly once however deep it sits (used by C01 as its completion check).
+pub(crate) fn deep_chain_cases(depth: usize) -> Vec<EvalCase> {
+    let mut out = vec![];
+    for kind in BINARY_KINDS {
+        for left_nested in [true, false] {
+            let ints: Vec<Expr> = (0..depth).map(|i| typed_call_of(Value::Int(5000 + i as i128))).collect();
+            out.push(mk_case(chain(kind, ints, left_nested)));
+            let bools: Vec<Expr> = (0..depth).map(|i| typed_call_of(Value::Bool(i % 2 == 0))).collect();
+            out.push(mk_case(chain(kind, bools, left_nested)));
+            let nones: Vec<Expr> = (0..depth).map(|i| if i == 0 { typed_call_of(Value::Int(1)) } else { Expr::index(Expr::func("lp", Expr::value(6000 + i as i128)), Index::Vec(7)) }).collect();
+            out.push(mk_case(chain(kind, nones, left_nested)));
+        }
+    }
+    for kind in UNARY_KINDS {
+        let mut e = typed_call_of(Value::Int(1));
+        for _ in 0..depth {
+            e = mk1(kind, e);
+        }
+        out.push(mk_case(e));
+    }
+    // conditionals nested in the condition, lists in lists, calls in calls
+    let mut e = typed_call_of(Value::Bool(true));
+    for i in 0..depth {
+        e = Expr::iif(e, Expr::value(i % 2 == 0), Expr::value(i % 2 == 1));
+    }
+    out.push(mk_case(e));
+    let mut e = typed_call_of(Value::Int(1));
+    for i in 0..depth {
+        e = if i % 2 == 0 { Expr::Vec(vec![e.clone()]) } else { Expr::index(Expr::Vec(vec![Expr::value(0), e]), Index::Vec(1)) };
+    }
+    out.push(mk_case(e));
+    out
+}
+
+pub(crate) fn random_case(bytes: &[u8]) -> EvalCase {
     let mut d = Dec::new(bytes);
     let depth = 1 + d.below(5) as u32;
     let mut g = G { d: &mut d, k: 0 };
@@ -302,6 +378,26 @@ fn family() -> Vec<EvalCase> {
         out.push(mk_case(mk1(kind, Expr::func("lp", fresh()))));
         out.push(mk_case(mk1(kind, Expr::func("fp", fresh()))));
     }
+    // chains of one operator over typed call results, nested to the left and to the right: operand type patterns in
+    // which the first / the second combination fails, and a chain of 14 (each operand runs once, however deep it sits)
+    for kind in BINARY_KINDS {
+        let mut n = 1000i128;
+        let mut int = || {
+            n += 1;
+            typed_call_of(Value::Int(n))
+        };
+        let b = |x: bool| typed_call_of(Value::Bool(x));
+        for left_nested in [true, false] {
+            out.push(mk_case(chain(kind, vec![int(), int(), int()], left_nested)));
+            out.push(mk_case(chain(kind, vec![int(), b(true), int()], left_nested)));
+            out.push(mk_case(chain(kind, vec![b(true), b(false), int()], left_nested)));
+            out.push(mk_case(chain(kind, vec![int(), int(), b(true), int()], left_nested)));
+            out.push(mk_case(chain(kind, vec![int(), typed_call_of(Value::None), b(true), int()], left_nested)));
+            out.push(mk_case(chain(kind, vec![b(true), b(true), b(true), int(), b(false)], left_nested)));
+            out.push(mk_case(chain(kind, (0..14).map(|_| int()).collect(), left_nested)));
+            out.push(mk_case(chain(kind, (0..14).map(|i| b(i % 3 == 0)).collect(), left_nested)));
+        }
+    }
     // lists and maps
     for n in 1..=4usize {
         for bad in 0..=n {
@@ -311,6 +407,14 @@ fn family() -> Vec<EvalCase> {
             let keys = ["k3", "k1", "k2", "k0"];
             let m: BTreeMap<String, Expr> = keys.iter().take(n).map(|s| s.to_string()).zip(items).collect();
             out.push(mk_case(Expr::Map(m)));
+        }
+    }
+    // long lists and maps: every item once, in order, up to the failing one
+    for n in [33usize, 129, 300] {
+        for bad in [n / 2, n - 1, n] {
+            let items: Vec<Expr> = (0..n).map(|i| if i == bad { Expr::func("fp", Expr::value(90_000 + i as i128)) } else { Expr::func("lp", Expr::value(90_000 + i as i128)) }).collect();
+            out.push(mk_case(Expr::Vec(items.clone())));
+            out.push(mk_case(Expr::Map(items.into_iter().enumerate().map(|(i, e)| (format!("k{:03}", (i * 7) % 1000), e)).collect())));
         }
     }
     // the argument of a cacheable function is evaluated at every call site, also at textually identical ones
@@ -337,7 +441,7 @@ pub fn run(ctx: &Ctx) {
     ctx.set_rule(
         "Generated: (1) the exhaustive small family: and / or / == / != / if with each operand ranging over {true, false, call \
          yielding true, call yielding false, division by zero, failing call, non-boolean, none, unknown reference}, every strict \
-         binary/unary kind over (call, call), (error, call), (call, error), lists and maps (keys out of order) with a failing item at \
+         binary/unary kind over (call, call), (error, call), (call, error), left- and right-nested chains of 3-14 operands of every binary kind over typed call results (a failing combination ends the evaluation before later operands run; each operand runs once at any depth), lists and maps (keys out of order) with a failing item at \
          each position, nested call arguments; (2) recipe-decoded random boolean-typed trees to depth 5 over lazy and strict nodes \
          whose leaves are constants, logging calls with distinct arguments, and erroring leaves of three distinguishable classes. \
          Oracle: the observed invocation sequence equals the reference evaluator's (lazy, once, left to right, key order) and the \
